@@ -41,6 +41,9 @@ T = {
  "C05": ("TLC-generated scenario lattice with expected verdicts (Gen_Singular) replayed into kinematic_singularity + trace validation of detection against the J4/J6 axis angle of the independent chain and of J4/J6 continuity (Singular!Continuity)",
          "Every multiple of pi, either side, depths inside/outside the band, both J5 signs, offset classes and wrappers are enumerated with TLC's expected verdict; the oracle's geometric axis angle is a second, independent judge; continuity at exactly singular poses is a TLA+ clause evaluated on each recorded inverse_continuing call.",
          "Continuity is demanded only under the property's own precondition (oracle arm sensitivity < 0.25 urad, no second singular branch); 'move by the same amount' only for equal J4/J6 sign corrections.", "4/C05"),
+ "C16": ("TLC model of coupling stacks on the lattice (Gen_Pgram, one Couple action per layer, exact reduced vector and link poses) replayed into Parallelogram + Solver trace events through random couplings",
+         "Every lattice-exact coupling (30 joint pairs x 6 scalings) is generated by TLC with the exact inner link poses at the reduced vector; forward, link poses and the round trip of all four inverse entry points are replayed; stacked couplings compose (depth 2 in the thorough tier); random real scalings are judged by the TLA+ clause Coupled.",
+         "Exactness on the lattice needs driven angles that are multiples of 90 degrees; other driven angles are covered by the random-real trace events.", "4/C16"),
 }
 
 REASON_TODO = "check not built yet in this round (planned, see DESIGN.md section 9); not claimed until it runs"
